@@ -18,4 +18,7 @@ out.append('    find_boundary_str [8] => find_boundary_str_contract(any());')
 for n in (0, 1, 5):
     out.append('    find_boundary_bytes_n%d [8] => find_boundary_bytes_contract::<%d>(&any(), any());' % (n, n))
 out.append('}')
+if len(sys.argv) > 2:
+    keep = set(l.strip() for l in open(sys.argv[2]) if l.strip())
+    out = [l for l in out if not l.startswith('    ') or l.strip().split(' ')[0] in keep]
 open(sys.argv[1] if len(sys.argv) > 1 else 'src/harness_list.rs', 'w').write('\n'.join(out) + '\n')
